@@ -26,6 +26,7 @@ pub struct Stringifier<'s, W: FmtWrite> {
     source_path: &'s str,
     scope_names: Vec<CompactString>,
     mangling: bool,
+    last_char: Option<char>,
 }
 
 impl<'s, W: FmtWrite> Stringifier<'s, W> {
@@ -41,6 +42,7 @@ impl<'s, W: FmtWrite> Stringifier<'s, W> {
             source_path,
             scope_names: vec![],
             mangling: false,
+            last_char: None,
         }
     }
 
@@ -77,6 +79,9 @@ impl<'s, W: FmtWrite> Stringifier<'s, W> {
 
     fn write_str(&mut self, s: &str) -> FmtResult {
         self.w.write_str(s)?;
+        if let Some(c) = s.chars().last() {
+            self.last_char = Some(c);
+        }
         let line_wrap_count = s.as_bytes().into_iter().filter(|x| **x == b'\n').count();
         self.line += line_wrap_count as u32;
         if line_wrap_count > 0 {
